@@ -29,6 +29,7 @@ def gen_cases(tier, rng):
         for ts in (0, 16777215):
             yield Case("c01.conv 18 %d %s" % (ts, hex_tok(mp)), cls="conv-meta")
     yield from fanout.gen_histories(tier, rng)
+    yield from fanout.gen_wait_histories(tier, rng, counts=(2,))
 
 
 def split_impl(c, out):
